@@ -57,7 +57,9 @@ chk("C05", "exploration",
 chk("C11", "exploration",
     "Generated histories mixing builds with manual create/edit/replace/remove of rule-matched names; bytes, inode and "
     "mtime of every user-owned file are compared after every command; override warning, rebuild after removal and "
-    "redo-targets/redo-sources roles are checked against an ownership model.", H_NOTE,
+    "redo-targets/redo-sources roles are checked against an ownership model. Scripts may replace their own target by "
+    "hand while the build runs (the user acting concurrently): that command must fail and leave the file alone "
+    "(found D19, D29; known D28).", H_NOTE,
     "property-based testing: Hypothesis-generated histories, ownership model + stat/bytes invariants", "DESIGN.md §4 C11", "H")
 chk("C14", "exploration",
     "Generated histories creating/deleting watched paths across runs over graphs dense in ifcreate and always "
@@ -75,19 +77,23 @@ P_NOTE = ("Trusted: the independent reference implementations in inproc/src/refe
 chk("C13", "exploration",
     "In-process proptest of possible_do_files against a reference enumeration (20k quick / 2M thorough paths) plus "
     "generated end-to-end histories checking redo-whichdo, the chosen script, $1/$2/$3/cwd and rebuild after adding / "
-    "removing candidates.", P_NOTE,
-    "property-based testing: proptest vs reference enumeration + Hypothesis end-to-end histories", "DESIGN.md §4 C13", "P+H")
+    "removing candidates, for a target and a sibling that shares every default*.do candidate. Coverage-guided: "
+    "libFuzzer target `dofiles` (100k quick / 3M thorough executions).", P_NOTE,
+    "property-based testing: proptest + libFuzzer vs reference enumeration + Hypothesis end-to-end histories", "DESIGN.md §4 C13", "P+H")
 chk("C15", "exploration",
     "normpath is checked on every string over {/,.,a,b} up to length 9 (11 thorough) and {/,.,a} up to 11 (14) against "
     "an independent cleanname, idempotence, shape invariants and the kernel; proptest for long/unicode strings; relpath "
     "re-join and spelling-agreement in a tree with symlinked directories; end-to-end: 2-4 spellings of one target on one "
-    "command line at -j1..4 must give one build and one canonical database row.", P_NOTE,
-    "exhaustive enumeration + proptest vs reference/kernel oracle + Hypothesis end-to-end cases", "DESIGN.md §4 C15", "P+H")
+    "command line at -j1..4 must give one build and one canonical database row. Coverage-guided: libFuzzer target "
+    "`normpath` (400k / 8M executions).", P_NOTE,
+    "exhaustive enumeration + proptest + libFuzzer vs reference/kernel oracle + Hypothesis end-to-end cases", "DESIGN.md §4 C15", "P+H")
 chk("C18", "exploration",
     "In-process round trip through the real formatter and parser for generated (kind, pid, text); end-to-end: generated "
     "graphs whose scripts write numbered stderr lines (partial, long, odd payloads) built at -j1..4, live output and "
-    "redo-log replay parsed and compared per target.", P_NOTE,
-    "property-based testing: proptest round trip + Hypothesis end-to-end per-target sequence invariant", "DESIGN.md §4 C18", "P+S-lite")
+    "redo-log replay parsed and compared per target; lines cut into up to five separately written pieces, targets in "
+    "two directories, whole lines in record form (known D15). Coverage-guided: libFuzzer target `meta` (parse -> "
+    "format -> parse fixed point, 400k / 8M executions) (found D27; known D15, D16).", P_NOTE,
+    "property-based testing: proptest round trip + libFuzzer + Hypothesis end-to-end per-target sequence invariant", "DESIGN.md §4 C18", "P+S-lite")
 
 S_NOTE = ("Trusted: rv/sched.py (event FIFO, gates, /proc-based quiescence, SIGSTOP/SIGCONT coincidences, harness "
           "jobserver pipes), the instrumented scripts, the kernel's fcntl/pipe semantics. Schedules are owned at the "
@@ -125,8 +131,14 @@ chk("C09", "exploration",
     "1-3 invocations, -j1..8, shuffle, inherited jobserver, duplicate spellings; which gated scripts finish together "
     "with each other and/or a token arrival inside one wake-up of their owner is decided by the harness "
     "(SIGSTOP/SIGCONT). Every invocation must end with exit 0 and without panic/EDEADLK/'JobServer deadlock'; hangs "
-    "need a no-progress proof.", S_NOTE,
-    "schedule fuzzing with coincidence injection, crash/hang oracle", "DESIGN.md §4 C09", "S")
+    "need a no-progress proof. Two more tiers: SYSTEMATIC -- for small scenarios every schedule is executed (every "
+    "non-empty subset of {gated script k exits, token arrives} at every quiescent point, recursively; exhaustive); "
+    "TOKEN RACE -- every read() of the jobserver pipe by any redo process loses the race to another process in turn "
+    "(LD_PRELOAD shim), plus cases where every token stays away for 70 s / 150 s (timer expiries) (found D25, D26).",
+    S_NOTE + " Systematic tier: exhaustive for the listed scenario sizes only. Token-race tier: its hang verdict is an "
+    "identical-syscall-line proof on a pipe whose contents the harness owns.",
+    "schedule fuzzing with coincidence injection + exhaustive schedule enumeration (small scenarios) + fault "
+    "enumeration at every token read; crash/hang oracle", "DESIGN.md §4 C09, §10.5", "S+K")
 chk("C10", "fault_enumeration",
     "Per generated project and state the state-changing libc calls of the redo binary are numbered by an LD_PRELOAD "
     "shim and a kill (caller or whole group) is injected immediately before each one (all points for 2 projects x 2 "
@@ -169,6 +181,8 @@ manifest = {
          "kind_free_text": "fault enumeration: LD_PRELOAD crash points (kill caller/group before the n-th state-changing call), script failure-mode cross product"},
         {"name": "P", "path": "inproc/", "serves_properties": ["C13", "C15", "C18"],
          "kind_free_text": "Rust crate linking /repo's library: proptest TestRunner (seeded), exhaustive enumeration, independent reference implementations"},
+        {"name": "F", "path": "fuzz/", "serves_properties": ["C13", "C15", "C18"],
+         "kind_free_text": "cargo-fuzz (libFuzzer, nightly toolchain) targets with the oracle inside the target: normpath, meta, dofiles"},
     ],
     "checks": [CHECKS[p["id"]] for p in props if p["id"] in CHECKS],
     "notes": "All checks rebuild /repo's working tree into /verif/target/sut first. Exit 2 = inconclusive (harness/watchdog), never a violation.",
